@@ -415,9 +415,7 @@ func (x *nsExec) roundsSnapshot() string {
 	for _, n := range x.nodes {
 		p := x.pos(n)
 		fmt.Fprintf(&b, "%d/%d;", p.SH, p.SR)
-		n.mu.Lock()
-		fmt.Fprintf(&b, "%d,", n.stratCalls)
-		n.mu.Unlock()
+		fmt.Fprintf(&b, "%d,", atomic.LoadInt64(&n.stratCalls))
 	}
 	return b.String()
 }
@@ -1603,11 +1601,17 @@ func TestVerifC10EngineRestart(t *testing.T) {
 
 // ---------------------------------------------------------------------------
 
-func TestVerifC03Agreement(t *testing.T) {
-	st := vk.NewStats("C03", "TestVerifC03Agreement", nsRule)
+func TestVerifC03Agreement(t *testing.T) { nsAgreementTest(t, "TestVerifC03Agreement") }
+
+// The same schedules in a build with the data race detector (thorough tier only): whole engines,
+// i.e. mirror kernel, state machine, gossip strategy and round timer of each node running together.
+func TestVerifC03AgreementDetector(t *testing.T) { nsAgreementTest(t, "TestVerifC03AgreementDetector") }
+
+func nsAgreementTest(t *testing.T, name string) {
+	st := vk.NewStats("C03", name, nsRule)
 	defer st.Flush()
 	var c nsCase
-	if ok, err := vk.LoadReplay("C03", "TestVerifC03Agreement", &c); err != nil {
+	if ok, err := vk.LoadReplay("C03", name, &c); err != nil {
 		t.Fatal(err)
 	} else if ok {
 		nsRun(t, t, st, c)
